@@ -14,7 +14,7 @@ import math
 
 import numpy as np
 
-from fsmc import bases, tissue as T, fsutil
+from fsmc import bases, tissue as T, fsutil, pairs
 from fsmc.explorer import ProductSystem
 from fsmc.ref import tangent as RT
 
@@ -154,7 +154,11 @@ def evaluate_matrix(at, k, cm, fit, ignore_four, lab=None, want_obs=False):
                 d2 = abs(exp - analytic)
                 bud = fit_budget(fit, turning, len(pts), straight)
                 worst_l2 = max(worst_l2, d2 / bud)
-                if d2 > bud:
+                if d2 > bud and fit == "dlite" and len(pts) >= 3 and not straight and turning < 0.1 and d2 < 0.5 \
+                        and pairs.dlite_underconverged(pts, complex(xc, yc)):
+                    # F22: leastsq from the centroid can stop far from the optimum on flat arcs
+                    known.append({"id": "F22", "junction": j, "interface": ii, "err": d2, "turning": turning, "npts": len(pts)})
+                elif d2 > bud:
                     viol.append({"what": "fitted tangent deviates from the analytic tangent by more than the fit budget",
                                  "detail": {"junction": j, "interface": ii, "err": d2, "budget": bud, "fit": fit, "npts": len(pts), "turning": turning}})
                 if min(abs(analytic.real), abs(analytic.imag)) < 1e-12:
